@@ -224,6 +224,21 @@ class Str(V):
 
 
 @dataclass(frozen=True)
+class MatProd(V):
+    """Matrix product a @ b @ ... (flattened; association does not matter)."""
+    factors: tuple
+
+    def __repr__(self):
+        return " @ ".join(map(repr, self.factors))
+
+
+@dataclass(frozen=True)
+class ArrV(V):
+    """numpy.array([...]) of known elements."""
+    items: tuple
+
+
+@dataclass(frozen=True)
 class LinesV(V):
     """text.splitlines() of a non-constant string."""
     src: object     # Str
@@ -260,6 +275,16 @@ class ADict:
     def clone(self):
         return ADict(dict(self.entries), self.open, self.bases, self.upper, self.label, self.cls,
                      self.keymap, set(self.removed))
+
+
+@dataclass
+class AMat:
+    """A fresh matrix (numpy.eye / zeros ...) with the slice stores made to it."""
+    base: str
+    sets: list = field(default_factory=list)    # (index text, value)
+
+    def clone(self):
+        return AMat(self.base, list(self.sets))
 
 
 @dataclass
